@@ -1,9 +1,106 @@
-"""C08 part (3): prebuilt instances are independent of keyword case (filled in with the C05/C06 machinery)."""
+"""C08 part (3): prebuilt instances are independent of keyword case."""
+import collections
+
+from hypothesis import strategies as st
+
+from . import oalsyn, prebuildfix
+from .oalgen import Printer, render
+from .core import Violation, hyp_run, exc_bucket
+
+SKIP_ATTRS = set(['Label', 'LineNumber', 'StartPosition', 'EndPosition'])
+
+
+def cased_text(body, case_list, recorder):
+    base = oalsyn.caser(case_list)
+
+    def case(word):
+        out = base(word)
+        recorder.append((word, out))
+        return out
+    p = Printer(choose=lambda key, options: options[0], case=case)
+    p.block(body['block'])
+    gaps = []
+    for i, (text, kind) in enumerate(p.toks):
+        prev = p.toks[i - 1][0] if i else None
+        gaps.append('\n' if prev == ';' else (' ' if i else ''))
+    return render(p.toks, gaps)[0]
+
+
+def population(m):
+    """attribute multisets of every Body / Value / Event subsystem instance, without ids, positions and source text"""
+    out = {}
+    for K, mc in m.metaclasses.items():
+        if not (K.startswith('ACT_') or K.startswith('V_') or K.startswith('E_')):
+            continue
+        insts = m.select_many(K)
+        if not insts:
+            continue
+        rows = []
+        for i in insts:
+            row = []
+            for n, t in mc.attributes:
+                if t.upper() == 'UNIQUE_ID' or n in SKIP_ATTRS or 'LineNumber' in n or 'Column' in n:
+                    continue
+                if n in mc.referential_attributes:
+                    continue
+                row.append((n, getattr(i, n)))
+            rows.append(repr(row))
+        out[K] = collections.Counter(rows)
+    return out
+
+
+def run_case(case, res=None):
+    from .c08_case import SEMANTIC
+    try:
+        fx = prebuildfix.Fixture(case['tape'])
+        rec = []
+        texts = {}
+        for c in fx.callables:
+            texts[c.kind + ':' + c.name] = cased_text(c.body, case['case'], rec)
+        fx2 = prebuildfix.Fixture(case['tape'], texts=texts)
+    except Exception as e:
+        raise Violation('fixture-exception:' + exc_bucket(e), case, repr(e))
+    info = dict(case, prebuild=True, bodies=texts)
+
+    def fail(bucket, detail):
+        raise Violation(bucket, info, detail)
+    try:
+        fx.prebuild()
+    except Exception as e:
+        fail('lower-case-prebuild-exception:' + exc_bucket(e), repr(e))
+    try:
+        fx2.prebuild()
+    except Exception as e:
+        fail('recased-prebuild-exception:' + exc_bucket(e), repr(e))
+    p1, p2 = population(fx.m), population(fx2.m)
+    if sorted(p1) != sorted(p2):
+        fail('recased-prebuild-other-classes', 'only lower %r, only recased %r' % (sorted(set(p1) - set(p2)), sorted(set(p2) - set(p1))))
+    for K in p1:
+        if p1[K] != p2[K]:
+            a = list((p1[K] - p2[K]).elements())[:2]
+            b = list((p2[K] - p1[K]).elements())[:2]
+            fail('recased-prebuild-attribute:%s' % K, '%s: lower-case source gives %r, re-cased source gives %r' % (K, a, b))
+    for c in fx.callables:
+        t1, t2 = fx.generated_text(c), fx2.generated_text(c)
+        if t1 != t2:
+            fail('recased-prebuild-structure', 'generated text differs for %s:\n%s\n---\n%s' % (c.name, t1, t2))
+    if res is not None:
+        sd = sorted(set(w for w, o in rec if o != w and w in SEMANTIC))
+        res.case(['prebuild', case['tape'], case['case']], bool(sd), classes=['prebuild'] + ['kw:' + w for w in sd],
+                 sample={'recased': list(texts.values())[0][:500]} if sd else None)
 
 
 def run_part(ctx, res):
-    return
+    def body(case):
+        try:
+            run_case(case, res)
+        except Violation:
+            raise
+        except Exception as e:
+            raise Violation('harness-exception:' + exc_bucket(e), case, repr(e))
+    strat = st.fixed_dictionaries({'tape': oalsyn.tapes(900, 120), 'case': st.lists(st.integers(0, 3), min_size=1, max_size=25)})
+    hyp_run(ctx, res, strat, body, ctx.pick(40, 400), label='prebuild')
 
 
 def replay(case):
-    return
+    run_case(case)
